@@ -167,10 +167,25 @@ func (d *ioDelegate) Close() error {
 	defer d.outfile.Close()
 
 	if d.cache != nil {
-		if err := d.cache.Close(); err != nil {
-			os.Remove(d.cache.Name())
-		}
+		pendingCaches = append(pendingCaches, d.cache)
+		d.cache = nil
 	}
 
 	return nil
+}
+
+// pendingCaches holds the cache entries written by this invocation. They are
+// finalised only once the command is known to have succeeded.
+var pendingCaches []*cache.File
+
+// finalizeCaches completes the pending cache entries if the command succeeded
+// and discards them otherwise, so that a failed run never leaves an entry
+// that would make a later identical run replay partial output successfully.
+func finalizeCaches(ok bool) {
+	for _, c := range pendingCaches {
+		if err := c.Close(); err != nil || !ok {
+			os.Remove(c.Name())
+		}
+	}
+	pendingCaches = nil
 }
